@@ -108,7 +108,7 @@ Proof. exact s_timeouts_post. Qed.
 Print Assumptions C04_server_timeout_no_residue.
 
 (* the IOCB layer (IOController / IOQController / SieveQueue / ApplicationIOController, model Bac.Iocb): over ANY history of
-   submissions (also several to one address, also refused below), confirmations from below, client aborts and batches of
+   submissions (also several to one address, also refused below, also with callbacks that submit follow-up requests), confirmations from below, client aborts and batches of
    deferred functions, every IOCB's callback has fired exactly once if it is COMPLETED/ABORTED and not at all otherwise *)
 Theorem C04_iocb_once : forall ops i b, Iocb.lookup i (Iocb.w_io (Iocb.run_world ops)) = Some b -> IocbFacts.inv_io b.
 Proof. exact IocbFacts.iocb_once. Qed.
@@ -126,17 +126,26 @@ Theorem C04_iocb_queue_advances : forall a g w q i r b,
   Iocb.lookup i (Iocb.w_io w) = Some b -> Iocb.i_state b = Iocb.IO_PENDING -> Iocb.i_fail b = false ->
   let w' := Iocb.trigger a g w in
   Iocb.lookup a (Iocb.w_qs w') = Some (Iocb.mkSq g 1 (Some i) r) /\
-  Iocb.lookup i (Iocb.w_io w') = Some (Iocb.mkIo Iocb.IO_ACTIVE (Iocb.i_cb b) false (Iocb.i_addr b)) /\
+  Iocb.lookup i (Iocb.w_io w') = Some (Iocb.mkIo Iocb.IO_ACTIVE (Iocb.i_cb b) false (Iocb.i_addr b) (Iocb.i_follow b)) /\
   Iocb.w_ev w' = [20; i] :: Iocb.w_ev w.
 Proof. exact IocbFacts.trigger_advances. Qed.
 Print Assumptions C04_iocb_queue_advances.
 
-(* queue_by_address cleanup: the confirmation of the only request of an address removes that address's queue *)
+(* queue_by_address cleanup: the confirmation of the only request of an address removes that address's queue, provided its
+   callback submits no follow-up request; when it submits one to the same address the queue stays and holds the follow-up *)
 Theorem C04_iocb_queue_cleanup : forall a ok w q i,
   Iocb.lookup a (Iocb.w_qs w) = Some q -> Iocb.q_active q = Some i -> Iocb.q_queue q = [] ->
+  (forall b, Iocb.lookup i (Iocb.w_io w) = Some b -> Iocb.i_follow b = None) ->
   Iocb.lookup a (Iocb.w_qs (Iocb.confirm a ok w)) = None.
 Proof. exact IocbFacts.confirm_cleanup. Qed.
 Print Assumptions C04_iocb_queue_cleanup.
+
+Theorem C04_iocb_followup_keeps_queue :
+  let w := Iocb.run_world [Iocb.OSubmit 0 10 false (Some (1, 10, false))] in
+  let w' := Iocb.confirm 10 true w in
+  exists q, Iocb.lookup 10 (Iocb.w_qs w') = Some q /\ Iocb.q_queue q = [1] /\ Iocb.q_active q = None.
+Proof. exact IocbFacts.confirm_keeps_queue_for_followup. Qed.
+Print Assumptions C04_iocb_followup_keeps_queue.
 
 (* the handlers can raise: a retransmitted ConfirmedRequest that meets a server sending a segmented response *)
 Theorem C04_no_exn_refuted : exists s a, s_state s = SEGMENTED_RESPONSE /\ a_type a = 0 /\
@@ -173,7 +182,7 @@ Qed.
 Example C04_wf_request_example : wf_request (mk_creq false false true (-1) (-1) 0 9 5 12 [1]) /\ s_state fresh_server = IDLE.
 Proof. vm_compute. repeat split; discriminate. Qed.
 Example C04_iocb_example :
-  Iocb.run_ops 2 [Iocb.OSubmit 0 10 false; Iocb.OSubmit 1 10 false; Iocb.OConfirm 10 true; Iocb.ORun; Iocb.OConfirm 10 false]
+  Iocb.run_ops 2 [Iocb.OSubmit 0 10 false None; Iocb.OSubmit 1 10 false None; Iocb.OConfirm 10 true; Iocb.ORun; Iocb.OConfirm 10 false]
   = [10; 0; 20; 0; 10; 0; 10; 1; 21; 0; 3; 10; 3; 20; 1; 10; 1; 21; 1; 4; 30; 3; 1; 4; 1; 31; 0; 32; 1].
 Proof. vm_compute. reflexivity. Qed.
 Example C04_budget_example : cnt_ok fresh_client /\ budget fresh_client = 19.
